@@ -54,13 +54,15 @@ const (
 func main() { vlib.Run("C37", run) }
 
 func run(c *vlib.Ctx) {
-	c.Rule("one case = one virtual network of 2-6 fully connected testinstance nodes (link latency fixed 0/1/5/20 ms or per-link uniform, provider-search delay 1s/200ms/50ms), 4-24 unique blocks (CIDv0 and CIDv1-raw) placed on 0-3 nodes each (some only after the requests started), 1-7 requests {GetBlocks, session.GetBlocks on shared sessions, GetBlock} with duplicate keys started within 0-30 ms on 1-3 requester nodes, cancellation {never, after k deliveries, immediately, timer}. Strata: complete = no cancellation, only obtainable keys; mix = everything; cancel = every request cancelled; in these three, fetches on one session never share a key (that is the trigger of the known same-session defects); sessshare = two staggered fetches on one session share all keys, nothing cancelled; sesscancel = the same with the first one cancelled. longsess = 2-3 nodes with ProviderSearchDelay 300-500 ms (RebroadcastDelay twice that), 1-3 fetches with disjoint keys that nobody holds on 1-2 long-lived sessions, each cancelled by the harness once its wants are on the node's want-list and in a peer's ledger; the sessions stay open and the want-list of the requester and the peers' ledger view (WantlistForPeer) are watched for 10 idle periods. distinct = FNV of the observed history shape (per request: kind, node, keys, distinct keys, deliveries, how it ended); non-trivial = a block was delivered from a remote node and (two requests of one node overlapped in logical time and shared a key, or a request was cancelled after >= 1 delivery); longsess: every fetch was cancelled after its wants had been seen in a peer's ledger and the watch covered >= 3 idle periods")
+	c.Rule("one case = one virtual network of 2-6 fully connected testinstance nodes (link latency fixed 0/1/5/20 ms or per-link uniform, provider-search delay 1s/200ms/50ms), 4-24 unique blocks (CIDv0 and CIDv1-raw) placed on 0-3 nodes each (some only after the requests started), 1-7 requests {GetBlocks, session.GetBlocks on shared sessions, GetBlock} with duplicate keys started within 0-30 ms on 1-3 requester nodes, cancellation {never, after k deliveries, immediately, timer}. Strata: complete = no cancellation, only obtainable keys; mix = everything; cancel = every request cancelled; in these three, fetches on one session never share a key (that is the trigger of the known same-session defects); sessshare = two staggered fetches on one session share all keys, nothing cancelled; sesscancel = the same with the first one cancelled. longsess = 2-3 nodes with ProviderSearchDelay 300-500 ms (RebroadcastDelay twice that), 1-3 fetches with disjoint keys that nobody holds on 1-2 long-lived sessions, each cancelled by the harness once its wants are on the node's want-list and in a peer's ledger; the sessions stay open and the want-list of the requester and the peers' ledger view (WantlistForPeer) are watched for 10 idle periods. bigreq = 2-3 nodes over a 100-150 ms network, one session fetch of 66-90 distinct keys (more than the 64-key broadcast limit) of which a peer holds 1-3 among the first 64, cancelled by the harness the moment a key beyond the 64th is listed as a targeted want (want-block/want-have in flight); burst = 3 nodes, 5-10 ms latency, 16 plain GetBlocks calls (temporary sessions) of 4 disjoint held keys each on one node, started within 30 ms and cancelled on a timer 15-50 ms after the call. distinct = FNV of the observed history shape (per request: kind, node, keys, distinct keys, deliveries, how it ended); non-trivial = a block was delivered from a remote node and (two requests of one node overlapped in logical time and shared a key, or a request was cancelled after >= 1 delivery); bigreq: the fetch was cancelled while a targeted want beyond the broadcast limit was in flight; longsess: every fetch was cancelled after its wants had been seen in a peer's ledger and the watch covered >= 3 idle periods")
 	c.Cases("complete", c.N(16, 400), func(k *vlib.Case) { netCase(k, "complete") })
 	c.Cases("mix", c.N(24, 500), func(k *vlib.Case) { netCase(k, "mix") })
 	c.Cases("cancel", c.N(16, 400), func(k *vlib.Case) { netCase(k, "cancel") })
 	c.Cases("sessshare", c.N(4, 80), func(k *vlib.Case) { netCase(k, "sessshare") })
 	c.Cases("sesscancel", c.N(4, 64), func(k *vlib.Case) { netCase(k, "sesscancel") })
 	c.Cases("longsess", c.N(8, 160), longSessCase)
+	c.Cases("bigreq", c.N(4, 48), bigReqCase)
+	c.Cases("burst", c.N(8, 200), burstCase)
 }
 
 // ---------------------------------------------------------------- script
@@ -81,15 +83,16 @@ type recv struct {
 }
 
 type req struct {
-	id          int
-	node        int
-	kind        string // getblocks | session | getblock
-	sess        int
-	keys        []int // block indices, duplicates allowed
-	startMs     int
-	cancelAfter int  // cancel after this many deliveries (0 = immediately after the call returned, -1 = no)
-	cancelMs    int  // cancel on a timer this many ms after the call (-1 = no)
-	whenSent    bool // longsess: the harness cancels once every key is on the want-list and in a peer's ledger
+	id           int
+	node         int
+	kind         string // getblocks | session | getblock
+	sess         int
+	keys         []int // block indices, duplicates allowed
+	startMs      int
+	cancelAfter  int  // cancel after this many deliveries (0 = immediately after the call returned, -1 = no)
+	cancelMs     int  // cancel on a timer this many ms after the call (-1 = no)
+	whenTargeted bool // bigreq: the harness cancels once a key beyond the 64-key broadcast limit is listed as a want-block/want-have
+	whenSent     bool // longsess: the harness cancels once every key is on the want-list and in a peer's ledger
 
 	mu        sync.Mutex // guards everything below
 	got       []recv
@@ -434,6 +437,77 @@ func (w *world) avoidSharedSessionKeys(r *vlib.Rand, q *req) {
 	}
 }
 
+// bigReqCase: a session fetch with more keys than the broadcast limit over a
+// slow network, cancelled while a targeted want is unanswered.
+func bigReqCase(k *vlib.Case) {
+	r := k.R
+	n := r.Range(2, 3)
+	lat := vlib.Pick(r, []time.Duration{100 * time.Millisecond, 150 * time.Millisecond})
+	psd := time.Second
+	k.Logf("config nodes=%d latency=fixed%s providerSearchDelay=%s stratum=bigreq", n, lat, psd)
+	w := &world{k: k, sess: map[[2]int]exchange.Fetcher{}}
+	ctx, cancelAll := context.WithCancel(context.Background())
+	defer cancelAll()
+	w.ctx = ctx
+	nb := r.Range(66, 90)
+	q := &req{id: 0, node: 0, kind: "session", sess: 0, cancelAfter: -1, cancelMs: -1, whenTargeted: true}
+	held := map[int]bool{}
+	for len(held) < r.Range(1, 3) {
+		held[r.Intn(64)] = true
+	}
+	var hs []string
+	for i := 0; i < nb; i++ {
+		bi := &blockInfo{blk: mkBlock(r, k.ID, i), name: fmt.Sprintf("b%d", i), late: -1}
+		if held[i] {
+			bi.holders = []int{r.Range(1, n-1)}
+			hs = append(hs, fmt.Sprintf("%s@%d", bi.name, bi.holders[0]))
+		}
+		w.blks = append(w.blks, bi)
+		q.keys = append(q.keys, i)
+	}
+	w.reqs = append(w.reqs, q)
+	k.Logf("blocks b0..b%d, held: %s, the rest by nobody", nb-1, strings.Join(hs, " "))
+	k.Logf("request r0 node=0 kind=session sess=0 keys=[b0 .. b%d] cancel=when a key beyond the 64th is listed as a targeted want", nb-1)
+	if !vlib.Guard(k, "network-case", caseWatchdog, func() { w.execute(n, delay.Fixed(lat), psd) }) {
+		cancelAll()
+	}
+}
+
+// burstCase: many short GetBlocks calls (temporary sessions) of one node,
+// each cancelled by a timer while the first answers are coming in.
+func burstCase(k *vlib.Case) {
+	r := k.R
+	n := 3
+	lat := vlib.Pick(r, []time.Duration{5 * time.Millisecond, 10 * time.Millisecond, 10 * time.Millisecond})
+	psd := time.Second
+	k.Logf("config nodes=%d latency=fixed%s providerSearchDelay=%s stratum=burst", n, lat, psd)
+	w := &world{k: k, sess: map[[2]int]exchange.Fetcher{}}
+	ctx, cancelAll := context.WithCancel(context.Background())
+	defer cancelAll()
+	w.ctx = ctx
+	const nreq, per = 16, 4
+	for i := 0; i < nreq*per; i++ {
+		bi := &blockInfo{blk: mkBlock(r, k.ID, i), name: fmt.Sprintf("b%d", i), late: -1, holders: []int{r.Range(1, 2)}}
+		if r.Chance(1, 3) {
+			bi.holders = []int{1, 2}
+		}
+		w.blks = append(w.blks, bi)
+	}
+	k.Logf("blocks b0..b%d each held by node 1 and/or 2", nreq*per-1)
+	for i := 0; i < nreq; i++ {
+		q := &req{id: i, node: 0, kind: "getblocks", sess: -1, cancelAfter: -1, startMs: r.Intn(31)}
+		q.cancelMs = r.Range(15, 50)
+		for j := 0; j < per; j++ {
+			q.keys = append(q.keys, i*per+j)
+		}
+		w.reqs = append(w.reqs, q)
+		k.Logf("request r%d node=0 kind=getblocks start=%dms cancelTimer=%dms keys=[b%d..b%d]", i, q.startMs, q.cancelMs, i*per, i*per+per-1)
+	}
+	if !vlib.Guard(k, "network-case", caseWatchdog, func() { w.execute(n, delay.Fixed(lat), psd) }) {
+		cancelAll()
+	}
+}
+
 // longSessCase: long-lived sessions, keys nobody holds, cancellation after the
 // wants went out, session kept open and watched over several idle periods.
 func longSessCase(k *vlib.Case) {
@@ -610,6 +684,33 @@ func (w *world) peerViews(node int) map[string]bool {
 	return out
 }
 
+// targetedInFlight: a key beyond the first 64 distinct keys of q (the session
+// broadcasts at most 64 live wants) is listed by GetWantBlocks/GetWantHaves,
+// i.e. it went out as a targeted want to the session peers and is unanswered.
+func (w *world) targetedInFlight(q *req) bool {
+	listed := map[string]bool{}
+	ex := w.insts[q.node].Exchange
+	for _, c := range ex.GetWantBlocks() {
+		listed[c.KeyString()] = true
+	}
+	for _, c := range ex.GetWantHaves() {
+		listed[c.KeyString()] = true
+	}
+	seen := map[int]bool{}
+	n := 0
+	for _, x := range q.keys {
+		if seen[x] {
+			continue
+		}
+		seen[x] = true
+		n++
+		if n > 64 && listed[w.blks[x].blk.Cid().KeyString()] {
+			return true
+		}
+	}
+	return false
+}
+
 // allWantsOut: every key of q is on its node's want-list and in some peer's ledger.
 func (w *world) allWantsOut(q *req) bool {
 	local := map[string]bool{}
@@ -635,12 +736,13 @@ func (w *world) allWantsOut(q *req) bool {
 // first observation; keys that never get clean are left to checkCleanup.
 func (w *world) watchStaysClean() map[string]bool {
 	type st struct {
-		node       int
-		c          cid.Cid
-		cleanN     int
-		cleanSince time.Time
-		wasClean   bool
-		reported   bool
+		node        int
+		c           cid.Cid
+		cleanN      int
+		cleanSince  time.Time
+		wasClean    bool
+		reported    bool
+		remoteNoted bool
 	}
 	var keys []*st
 	dup := map[string]bool{}
@@ -683,6 +785,16 @@ func (w *world) watchStaysClean() map[string]bool {
 				s.cleanN++
 				if s.cleanN >= 5 && time.Since(s.cleanSince) >= 50*time.Millisecond {
 					s.wasClean = true
+				}
+				continue
+			}
+			if s.wasClean && !inLocal {
+				// only a peer's ledger shows it again: the statement speaks about the
+				// requester's want-list, so this is recorded, not judged (per-peer
+				// message queue / ledger convergence is C35's and C36's subject)
+				if !s.remoteNoted {
+					s.remoteNoted = true
+					w.k.C.Count("longsess_reappeared_only_in_a_peer_ledger", 1)
 				}
 				continue
 			}
@@ -822,6 +934,12 @@ func (w *world) monitorRequests() {
 			if q.whenSent {
 				if w.allWantsOut(q) {
 					q.doCancel(w, "harness:when-sent")
+				}
+				continue
+			}
+			if q.whenTargeted {
+				if w.targetedInFlight(q) {
+					q.doCancel(w, "harness:targeted-want-in-flight")
 				}
 				continue
 			}
@@ -1147,6 +1265,17 @@ func (w *world) checkCleanup(phase string, already map[string]bool, closeSession
 	// sessions are closed (a session still holds interest in it) or is it an
 	// orphan that nothing will ever cancel? Orphans never disappear; a held
 	// want is released within milliseconds of the close (polled for <= 1 s).
+	// how each leftover is listed, taken while the state is still the stable one
+	wbAll, whAll := map[int]map[string]bool{}, map[int]map[string]bool{}
+	for node := range m {
+		wbAll[node], whAll[node] = map[string]bool{}, map[string]bool{}
+		for _, c := range w.insts[node].Exchange.GetWantBlocks() {
+			wbAll[node][c.KeyString()] = true
+		}
+		for _, c := range w.insts[node].Exchange.GetWantHaves() {
+			whAll[node][c.KeyString()] = true
+		}
+	}
 	released := map[string]bool{}
 	if closeSessions != nil {
 		closeSessions()
@@ -1177,10 +1306,7 @@ func (w *world) checkCleanup(phase string, already map[string]bool, closeSession
 	// classify every leftover CID from the recorded history
 	for node, cs := range m {
 		inst := w.insts[node].Exchange
-		wb := map[string]bool{}
-		for _, c := range inst.GetWantBlocks() {
-			wb[c.KeyString()] = true
-		}
+		wb, wh := wbAll[node], whAll[node]
 		for _, c := range cs {
 			out[fmt.Sprint(node, "/", c.KeyString())] = true
 			var feats []string
@@ -1245,12 +1371,24 @@ func (w *world) checkCleanup(phase string, already map[string]bool, closeSession
 					}
 				}
 			}
+			kind := "want-have/broadcast"
+			switch {
+			case wb[c.KeyString()]:
+				kind = "want-block"
+			case !wh[c.KeyString()]:
+				kind = "phantom (GetWantlist lists it, GetWantBlocks and GetWantHaves do not)"
+			}
+			switch {
+			case strings.HasPrefix(kind, "phantom"):
+				// the want-list index holds a CID that is in no peer's want set
+				class = "want-not-cleared/phantom-entry"
+			case class == "want-not-cleared/after-cancel" && kind == "want-block":
+				// a never-received, cancelled CID that is wanted as a targeted
+				// want-block again (the registered finding re-adds broadcast want-haves)
+				class = "want-not-cleared/after-cancel/targeted-want"
+			}
 			if phase == "sessions-closed" && class != "want-not-cleared/orphan-after-receipt" {
 				class += "/only-after-session-close"
-			}
-			kind := "want-have/broadcast"
-			if wb[c.KeyString()] {
-				kind = "want-block"
 			}
 			feats = append(feats, kind)
 			k.Fail(class, "after completion or cancel the requester's want-list holds none of the requested CIDs (stable state, phase "+phase+")",
@@ -1330,6 +1468,12 @@ func (w *world) finishEvidence() {
 	}
 	if remote && (overlapShared || cancelledAfterDelivery) {
 		k.Nontrivial()
+	}
+	for i, q := range w.reqs {
+		if q.whenTargeted && sts[i].cancelHow == "harness:targeted-want-in-flight" {
+			k.Nontrivial()
+			k.C.Count("bigreq_cancelled_with_targeted_want_in_flight", 1)
+		}
 	}
 	if w.long && w.watchedIdle >= 3 {
 		all := len(w.reqs) > 0
